@@ -347,6 +347,7 @@ pub fn guarded<T>(f: impl FnOnce() -> T) -> Result<T, String> {
 }
 
 pub fn quiet_panics() {
+    if std::env::var("VERIF_LOUD").is_ok() { return; }
     std::panic::set_hook(Box::new(|_| {}));
 }
 
